@@ -259,23 +259,25 @@ def run(tier: str) -> Run:
             detail = {'outcomes': [(o.kind, o.exc_type, o.where) for o in outs]}
         r3.check(ok, f'_next_highest[{xdt}]', loc(nfi), detail, key=f'next-{xdt}')
 
-    r4 = run.rule('R4', 'in-phase predicate and filter', 3)
-    afi = repo.func('chopper.filtering', '_is_approximate_multiple')
+    r4 = run.rule('R4', 'in-phase predicate and filter (decided on the public filter_in_phase; private helpers are checked where they exist)', 1)
+    helpers = repo.module('chopper.filtering').functions
+    afi = helpers.get('_is_approximate_multiple')
     specs = {'x': P(dim='FREQ', positive=False), 'ref': P(dim='FREQ', positive=False), 'rtol': P(dim='ONE', unit=Unit())}
-    outs = run_kernel(repo, afi, specs)
+    outs = run_kernel(repo, afi, specs) if afi is not None and [a.arg for a in afi.node.args.args + afi.node.args.kwonlyargs] == list(specs) else None
 
     def mask(xs, refs, rtol):
         q = xs / refs
         a = T.fn_cmp('<', T.fn_abs(Rat.fn('round', q) - q), rtol)
         b = T.fn_cmp('<', T.fn_abs(Rat.fn('round', 1 / q) - 1 / q), rtol)
         return T.fn_bool('or', a, b)
-    ok = len(outs) == 1 and outs[0].kind == 'return' and outs[0].value.term is not None
-    detail = {}
-    if ok:
-        want = mask(Rat.sym('x'), Rat.sym('ref'), Rat.sym('rtol', positive=True))
-        ok = eq_term(outs[0].value.term, want)
-        detail = {'computed': show(outs[0].value), 'expected': T.show(want)}
-    r4.check(ok, '_is_approximate_multiple', loc(afi), detail, key='predicate')
+    if outs is not None:
+        ok = len(outs) == 1 and outs[0].kind == 'return' and outs[0].value.term is not None
+        detail = {}
+        if ok:
+            want = mask(Rat.sym('x'), Rat.sym('ref'), Rat.sym('rtol', positive=True))
+            ok = eq_term(outs[0].value.term, want)
+            detail = {'computed': show(outs[0].value), 'expected': T.show(want)}
+        r4.check(ok, '_is_approximate_multiple', loc(afi), detail, key='predicate')
     ffi = repo.func('chopper.filtering', 'filter_in_phase')
     specs = {'frequency': P(dim='FREQ', positive=False), 'reference': P(dim='FREQ', positive=False), 'rtol': P(dim='ONE', unit=Unit())}
     outs = run_kernel(repo, ffi, specs)
@@ -288,11 +290,12 @@ def run(tier: str) -> Run:
         ok = outs[0].value.view_of is not None and outs[0].value.view_of.origin == 'frequency' and keys is not None and eq_term(keys, want)
         detail = {'index_key': T.show(keys) if keys is not None else None, 'expected': T.show(want)}
     r4.check(ok, 'filter_in_phase', loc(ffi), detail, key='filter')
-    ifi = repo.func('chopper.filtering', '_is_in_phase')
-    outs = run_kernel(repo, ifi, specs)
-    ok = len(outs) == 1 and outs[0].kind == 'return' and outs[0].value.term is not None and \
-        eq_term(outs[0].value.term, mask(Rat.sym('frequency'), Rat.sym('reference'), Rat.sym('rtol', positive=True)))
-    r4.check(ok, '_is_in_phase', loc(ifi), {'computed': show(outs[0].value) if outs else None}, key='in-phase')
+    ifi = helpers.get('_is_in_phase')
+    if ifi is not None and [a.arg for a in ifi.node.args.args + ifi.node.args.kwonlyargs] == list(specs):
+        outs = run_kernel(repo, ifi, specs)
+        ok = len(outs) == 1 and outs[0].kind == 'return' and outs[0].value.term is not None and \
+            eq_term(outs[0].value.term, mask(Rat.sym('frequency'), Rat.sym('reference'), Rat.sym('rtol', positive=True)))
+        r4.check(ok, '_is_in_phase', loc(ifi), {'computed': show(outs[0].value) if outs else None}, key='in-phase')
 
     r5 = run.rule('R5', 'no argument is written by find_plateaus / collapse_plateaus / filter_in_phase', 3)
     eff = Effects(repo)
